@@ -90,9 +90,9 @@ def h_sample_prob(ctx, n, r, target, gauge=False):
     tot = F.sum()
     ctx.assume(ctx.gt(tot, 0))
     if gauge and r == 2:
-        # same non-negative tensor carried by mixed-sign cores: G0 A, A^-1 G1 with A = [[1,-1],[0,1]]
-        A = np.array([[ctx.const(1), ctx.const(-1)], [ctx.const(0), ctx.const(1)]], dtype=Y[0].dtype)
-        Ai = np.array([[ctx.const(1), ctx.const(1)], [ctx.const(0), ctx.const(1)]], dtype=Y[0].dtype)
+        # same non-negative tensor carried by a mixed-sign core: G0 A, A^-1 G1 with A = [[1,1],[0,1]]
+        A = np.array([[ctx.const(1), ctx.const(1)], [ctx.const(0), ctx.const(1)]], dtype=Y[0].dtype)
+        Ai = np.array([[ctx.const(1), ctx.const(-1)], [ctx.const(0), ctx.const(1)]], dtype=Y[0].dtype)
         Y = [np.einsum('aib,bc->aic', Y[0], A), np.einsum('ab,bic->aic', Ai, Y[1])] + Y[2:]
     g = _gen(ctx, 'audit', script=list(target))
     I = teneva.sample(Y, 1, seed=g, unsert=0.)
